@@ -242,6 +242,9 @@ class Headers:
                 chunk = chunk[:(height-e.height)*self.header_size]
             if chunk:
                 added += self._write(height, chunk)
+                # headers stored above a newly connected chunk belong to an abandoned fork
+                self.io.truncate()
+                self._size = self.io.tell() // self.header_size
             if bail:
                 break
         return added
